@@ -65,6 +65,18 @@ theorem restart_exact (s : St) (w : Nat) :
   have := load_spec s.disk [] w
   simpa [restartSt, load, signersOf, known] using this
 
+/-- the order in which `ReadAll` delivers the files (directory listing, channel scheduling) does
+    not matter: for any reordering of the storage content a restart yields, per wallet, the same
+    signers up to order. -/
+theorem restart_order_irrelevant (d1 d2 : List File) (h : d1.Perm d2) (w : Nat) :
+    (signersOf (load d1) w).Perm (signersOf (load d2) w) := by
+  have e1 := (load_spec d1 [] w).1
+  have e2 := (load_spec d2 [] w).1
+  simp only [signersOf, List.find?_nil, List.nil_append] at e1 e2
+  unfold load signersOf
+  rw [e1, e2]
+  exact (h.filter _).map _
+
 /-! ## invariants over every history -/
 
 /-- cache well-formedness: one entry per wallet, never an empty signer slice (the lookups index
@@ -396,9 +408,32 @@ theorem sameSet_refl (l : List (Nat × Nat)) : sameSet l l = true := by
 
 theorem snapSigners_eq (c : Cache) (w : Nat) : snapSigners c w = signersOf c w := rfl
 
+theorem step_err_cache (wallet : Bool) (s : St) (w i sh : Nat) (f : Fault)
+    (h : (step wallet s (.reg w i sh f)).2 = .eSave ∨ (step wallet s (.reg w i sh f)).2 = .eId) :
+    (step wallet s (.reg w i sh f)).1.cache = s.cache := by
+  cases f
+  case none => simp [step] at h
+  case failBefore => rfl
+  case failAfter => rfl
+  case crashBefore => simp [step] at h
+  case crashAfter => simp [step] at h
+  case idFail =>
+    by_cases hc : (wallet && !known s.cache w) = true
+    · simp only [step, hc]; rfl
+    · simp [step, hc] at h
+
+theorem step_arch_err_cache (s : St) (w : Nat) (f : Fault)
+    (h : (step true s (.arch w f)).2 = .eArch ∨ (step true s (.arch w f)).2 = .eNf) :
+    (step true s (.arch w f)).1.cache = s.cache := by
+  by_cases hk : (!known s.cache w) = true
+  · simp [step, hk]
+  · by_cases hd : hasDir s.disk w = true
+    · cases f <;> simp [step, hk, hd] at h ⊢ <;> rfl
+    · cases f <;> simp [step, hk, hd] at h ⊢
+
 theorem stepOk_model (wallet : Bool) (s : St) (op : Op) :
-    stepOk wallet op (step wallet s op).2 (step wallet s op).1.cache none = true ∧
-    stepOk wallet op (step wallet s op).2 (step wallet s op).1.cache
+    stepOk wallet op (step wallet s op).2 s.cache (step wallet s op).1.cache none = true ∧
+    stepOk wallet op (step wallet s op).2 s.cache (step wallet s op).1.cache
       (some (restartSt (step wallet s op).1).cache) = true := by
   cases op
   case restart => simp [stepOk, step, restartSt, snapEq, sameSet_refl]
@@ -407,7 +442,13 @@ theorem stepOk_model (wallet : Bool) (s : St) (op : Op) :
     · obtain ⟨_, h2, h3⟩ := reg_ok_persisted wallet s w i sh f h
       simp only [stepOk, h, snapSigners_eq]
       simp [h2, h3]
-    · simp [stepOk, h]
+    · by_cases he : (step wallet s (.reg w i sh f)).2 = .eSave ∨ (step wallet s (.reg w i sh f)).2 = .eId
+      · have hc := step_err_cache wallet s w i sh f he
+        simp only [stepOk, hc, sameSet_refl]
+        rcases he with he | he <;> simp [he]
+      · have h1 : ¬ (step wallet s (.reg w i sh f)).2 = .eSave := fun x => he (Or.inl x)
+        have h2 : ¬ (step wallet s (.reg w i sh f)).2 = .eId := fun x => he (Or.inr x)
+        simp [stepOk, h, h1, h2]
   case arch w f =>
     cases wallet
     · simp [stepOk]
@@ -415,11 +456,17 @@ theorem stepOk_model (wallet : Bool) (s : St) (op : Op) :
       · obtain ⟨_, h2, h3, _⟩ := archive_removes s w f h
         simp only [stepOk, h, snapSigners_eq]
         simp [h2, h3]
-      · simp [stepOk, h]
+      · by_cases he : (step true s (.arch w f)).2 = .eArch ∨ (step true s (.arch w f)).2 = .eNf
+        · have hc := step_arch_err_cache s w f he
+          simp only [stepOk, hc, sameSet_refl]
+          rcases he with he | he <;> simp [he]
+        · have h1 : ¬ (step true s (.arch w f)).2 = .eArch := fun x => he (Or.inl x)
+          have h2 : ¬ (step true s (.arch w f)).2 = .eNf := fun x => he (Or.inr x)
+          simp [stepOk, h, h1, h2]
 
 /-- `holdsTrace` (the monitor) accepts what the model does on every history, for both registries. -/
 theorem holds_model (wallet : Bool) (ops : List Op) (s : St) :
-    holdsTrace wallet ops (run wallet s ops) = true := by
+    holdsTrace wallet s.cache ops (run wallet s ops) = true := by
   induction ops generalizing s with
   | nil => simp [run, holdsTrace]
   | cons op ops ih =>
@@ -443,8 +490,11 @@ example : (run true {} [.reg 1 1 0 .none, .reg 1 1 3 .none, .reg 2 2 1 .failAfte
      [(1, [(1, 3)]), (2, [(2, 1)])], [(1, [(1, 3)]), (2, [(2, 1)])], [(2, [(2, 1)])]] := by decide
 /-- the monitor rejects: a registered signer lost by the restart, key material changed by the
     restart, an archived wallet that comes back. -/
-example : holdsTrace true [.reg 1 1 0 .none, .restart] [(.ok, [(1, [(1, 0)])]), (.restarted, [])] = false := by decide
-example : holdsTrace true [.reg 1 1 0 .none, .restart] [(.ok, [(1, [(1, 0)])]), (.restarted, [(1, [(1, 2)])])] = false := by decide
-example : holdsTrace true [.arch 1 .none, .restart] [(.ok, []), (.restarted, [(1, [(1, 0)])])] = false := by decide
+example : holdsTrace true [] [.reg 1 1 0 .none, .restart] [(.ok, [(1, [(1, 0)])]), (.restarted, [])] = false := by decide
+example : holdsTrace true [] [.reg 1 1 0 .none, .restart] [(.ok, [(1, [(1, 0)])]), (.restarted, [(1, [(1, 2)])])] = false := by decide
+example : holdsTrace true [] [.arch 1 .none, .restart] [(.ok, []), (.restarted, [(1, [(1, 0)])])] = false := by decide
+example : holdsTrace true [(1, [(1, 0)])] [.arch 1 .failBefore] [(.eArch, [])] = false := by decide
+/-- …and a signer that entered memory although its registration reported a storage error. -/
+example : holdsTrace true [] [.reg 1 1 0 .failBefore] [(.eSave, [(1, [(1, 0)])])] = false := by decide
 
 end KeepVerif.C38
